@@ -119,6 +119,11 @@ def sparse_diff(a, b, bs):
 
 BIG = {'big4g': (['-t', 'ext4', '-b', '4096', '-O', '^flex_bg,^has_journal,^resize_inode,metadata_csum,64bit', '-N', '2048'], 1114112),
        'big4g_ext2_1k': (['-t', 'ext2', '-b', '1024', '-O', '^resize_inode,sparse_super', '-N', '8192', '-g', '8192'], 4194304 + 8192 * 3 + 77),
+       # more than 512 qcow2 L2 tables in one image (1 KiB clusters: one table per 128 KiB; 700 groups of 256 KiB without flex_bg, metadata in each): the writer's table cache recycles
+       # (groups of 264 blocks: the position of a group's metadata inside its 128-entry table rotates, so a recycled table that was not wiped shows)
+       'manyl2': (['-t', 'ext4', '-b', '1024', '-g', '264', '-O', '^flex_bg,^has_journal,^resize_inode,^metadata_csum,^uninit_bg', '-N', '5600'], 700 * 264 + 9),
+       'manyl2_ext2': (['-t', 'ext2', '-b', '1024', '-g', '264', '-O', '^resize_inode', '-N', '5600'], 640 * 264 + 131),
+       'manyl2_2k': (['-t', 'ext2', '-b', '2048', '-g', '520', '-O', '^resize_inode', '-N', '4800'], 600 * 520 + 77),
        'big4g_bigalloc': (['-t', 'ext4', '-b', '4096', '-C', '65536', '-O', 'bigalloc,^flex_bg,^has_journal,^resize_inode,metadata_csum', '-N', '2048'], 1114112 + 4096)}
 def job_big(j):
     """filesystems whose metadata lies beyond byte offsets 2^31 and 2^32 (sparse scratch files; group bitmaps and inode tables of the last groups sit above 4 GiB)"""
@@ -138,7 +143,7 @@ def job_big(j):
         im = Image(m); M = layout.metadata_blocks(im); bs = im.bs
         for g in range(1, im.groups): M -= set(im.group_overhead_blocks(g))
         h0 = sha(p)
-        if max(M) * bs < (1 << 32): return (cid, 'skip', 'no metadata above 4 GiB', 0)
+        if kind.startswith('big4g') and max(M) * bs < (1 << 32): return (cid, 'skip', 'no metadata above 4 GiB', 0)
         def cmpM(other, label):
             with open(other, 'rb') as fo:
                 miss = []
@@ -164,6 +169,19 @@ def job_big(j):
                     if df: bad.append('qcow2->raw differs from the direct raw image at blocks %s' % df[:8])
                 a = run([DUMPE2FS, p], timeout=600); b = run([DUMPE2FS, q2r], timeout=600)
                 if a[0] != b[0] or strip(a[1], p) != strip(b[1], q2r): bad.append('dumpe2fs differs between source and qcow2->raw image')
+        if kind.startswith('manyl2'):
+            # all-data images as well: the qcow2 writer then maps every used block, the conversion back must equal the direct all-data raw image
+            for f_ in (raw, qc, q2r):
+                if os.path.exists(f_): os.unlink(f_)
+            r1 = run([E2IMAGE, '-ra', p, raw], timeout=600); r2 = run([E2IMAGE, '-Qa', p, qc], timeout=600); n += 2
+            if r1[0] != 0 or r2[0] != 0: bad.append('e2image -ra / -Qa exit %s / %s' % (r1[0], r2[0]))
+            else:
+                r3 = run([E2IMAGE, '-r', qc, q2r], timeout=600); n += 1
+                if r3[0] != 0: bad.append('qcow2(-Qa) -> raw conversion exit %s' % r3[0])
+                else:
+                    df = sparse_diff(raw, q2r, bs)
+                    if df: bad.append('all-data qcow2->raw differs from the direct all-data raw image at blocks %s' % df[:8])
+                    cmpM(q2r, 'all-data qcow2->raw image')
         if sha(p) != h0: bad.append('e2image modified its source')
         m.close(); f.close()
     except Exception as e:
@@ -198,7 +216,7 @@ def main(tier, only=None):
         lo = 1560 if kind == 'ext4csum' else 420
         for size in (range(lo, lo + 1100) if not quick else list(range(lo, lo + 1100, 3)) + [k * 128 + d for k in range(2, 19) for d in (-1, 0, 1)] + [k * 512 + d for k in range(1, 5) for d in (-1, 0, 1)]):
             if size >= lo: jobs.append(('size/%s/%d' % (kind, size), 'size', (kind, size)))
-    bigjobs = [('bigoff/%s' % k, 'big', k) for k in (['big4g'] if quick else list(BIG))]
+    bigjobs = [('bigoff/%s' % k, 'big', k) for k in (['big4g', 'manyl2', 'manyl2_ext2'] if quick else list(BIG))]
     bigres = pmap(job_big, bigjobs, chunksize=1)
     res = pmap(job, jobs, chunksize=2)
     res = bigres + res; jobs = bigjobs + jobs
@@ -212,7 +230,7 @@ def main(tier, only=None):
             ck.violation('%s :: %s' % (cid, b[:60]), {'case': cid, 'what': b})
     ck.add(evaluations=runs, distinct_nontrivial=ok, states=len(jobs), transitions=runs, traces_validated_against_impl=runs,
            rule='source = every corpus image + a populated filesystem of every size in a 1100-block window (quick: every 3rd size plus +-1 around every multiple of 128 and 512 blocks, i.e. qcow2 L2-table and refcount-block boundaries); '
-                'every source first gets external attribute blocks on its fast symlinks, device nodes, fifos and small files (debugfs ea_set); plus sparse filesystems whose group metadata lies above byte offsets 2^31 and 2^32 (4k blocks without flex_bg; thorough: also 1k-block ext2 and bigalloc); per source: e2image -r, -Q, -Q then -r, -ra; oracle: metadata block set (computed by xck) byte-identical, e2fsck -fn and dumpe2fs outputs identical, qcow2->raw == raw, -ra tree identical, source unchanged',
+                'every source first gets external attribute blocks on its fast symlinks, device nodes, fifos and small files (debugfs ea_set); plus filesystems of 640-700 groups whose images need more than 512 qcow2 L2 tables (metadata and all-data images), plus sparse filesystems whose group metadata lies above byte offsets 2^31 and 2^32 (4k blocks without flex_bg; thorough: also 1k-block ext2 and bigalloc); per source: e2image -r, -Q, -Q then -r, -ra; oracle: metadata block set (computed by xck) byte-identical, e2fsck -fn and dumpe2fs outputs identical, qcow2->raw == raw, -ra tree identical, source unchanged',
            samples=[jobs[0][0], jobs[20][0], jobs[-1][0]])
     ck.cov['sources_skipped'] = skip; ck.cov['skip_reasons'] = skipwhy
     ck.assumptions += ['size-sweep sources are made with the tree\'s own mke2fs -d; they are only used differentially (source vs image)']
